@@ -23,6 +23,14 @@ static void relax(actor *a)
         sched_yield();
 }
 
+#define MCALL(opname, m, expr)                                                 \
+    ({                                                                         \
+        vs_log("apiCall %s M%d", opname, m);                                   \
+        int rc__ = (expr);                                                     \
+        vs_note("apiRet %s M%d %d", opname, m, rc__ == ABT_SUCCESS ? 1 : 0);   \
+        rc__;                                                                  \
+    })
+
 static void mutex_body(actor *a)
 {
     for (int r = 0; r < rounds; r++) {
@@ -31,14 +39,13 @@ static void mutex_body(actor *a)
         if (how == 2 && cs_yield)
             how = 0;
         m_inwin[m]++;
-        vs_log("apiCall acquire M%d how=%d", m, how);
         switch (how) {
             case 0:
-                ABT_OK(ABT_mutex_lock(M[m]));
+                ABT_OK(MCALL("lock", m, ABT_mutex_lock(M[m])));
                 break;
             case 1:
                 for (;;) {
-                    int rc = ABT_mutex_trylock(M[m]);
+                    int rc = MCALL("trylock", m, ABT_mutex_trylock(M[m]));
                     if (rc == ABT_SUCCESS)
                         break;
                     VSA_CHECK(rc == ABT_ERR_MUTEX_LOCKED, "trylock M%d returned %d", m, rc);
@@ -47,16 +54,15 @@ static void mutex_body(actor *a)
                 }
                 break;
             case 2:
-                ABT_OK(ABT_mutex_spinlock(M[m]));
+                ABT_OK(MCALL("spinlock", m, ABT_mutex_spinlock(M[m])));
                 break;
             case 3:
-                ABT_OK(ABT_mutex_lock_high(M[m]));
+                ABT_OK(MCALL("lock", m, ABT_mutex_lock_high(M[m])));
                 break;
             default:
-                ABT_OK(ABT_mutex_lock_low(M[m]));
+                ABT_OK(MCALL("lock", m, ABT_mutex_lock_low(M[m])));
                 break;
         }
-        vs_note("apiRet acquire M%d", m);
         m_holder[m]++;
         m_acq[m]++;
         VSA_CHECK(m_holder[m] == 1, "mutual exclusion broken on M%d: %d holders", m, m_holder[m]);
@@ -65,31 +71,29 @@ static void mutex_body(actor *a)
             depth = sc_rnd(3);
             for (int d = 0; d < depth; d++) {
                 if (sc_rnd(2))
-                    ABT_OK(ABT_mutex_lock(M[m]));
+                    ABT_OK(MCALL("lock", m, ABT_mutex_lock(M[m])));
                 else
-                    VSA_CHECK(ABT_mutex_trylock(M[m]) == ABT_SUCCESS, "recursive trylock by owner failed on M%d", m);
+                    VSA_CHECK(MCALL("trylock", m, ABT_mutex_trylock(M[m])) == ABT_SUCCESS, "recursive trylock by owner failed on M%d", m);
             }
         } else if (sc_rnd(3) == 0) {
             /* a non-recursive mutex held by me: trylock must fail */
-            VSA_CHECK(ABT_mutex_trylock(M[m]) == ABT_ERR_MUTEX_LOCKED, "trylock succeeded on held M%d", m);
+            VSA_CHECK(MCALL("trylock", m, ABT_mutex_trylock(M[m])) == ABT_ERR_MUTEX_LOCKED, "trylock succeeded on held M%d", m);
         }
         if (cs_yield && sc_rnd(2))
             relax(a);
         VSA_CHECK(m_holder[m] == 1, "mutual exclusion broken on M%d after yield: %d holders", m, m_holder[m]);
         for (int d = 0; d < depth; d++) {
-            ABT_OK(ABT_mutex_unlock(M[m]));
+            ABT_OK(MCALL("unlock", m, ABT_mutex_unlock(M[m])));
             VSA_CHECK(m_holder[m] == 1, "recursive unlock released M%d early", m);
         }
         m_holder[m]--;
-        vs_log("apiCall release M%d", m);
         int ur = sc_rnd(3);
         if (ur == 0)
-            ABT_OK(ABT_mutex_unlock(M[m]));
+            ABT_OK(MCALL("unlock", m, ABT_mutex_unlock(M[m])));
         else if (ur == 1)
-            ABT_OK(ABT_mutex_unlock_se(M[m]));
+            ABT_OK(MCALL("unlock", m, ABT_mutex_unlock_se(M[m])));
         else
-            ABT_OK(ABT_mutex_unlock_de(M[m]));
-        vs_note("apiRet release M%d", m);
+            ABT_OK(MCALL("unlock", m, ABT_mutex_unlock_de(M[m])));
         m_inwin[m]--;
         if (sc_rnd(2))
             relax(a);
